@@ -55,7 +55,58 @@ def run(ctx):
         if not m2:
             raise vlib.Infra("binding self-test: corrupted access row accepted")
     outtrack(ctx, quick)
-    ctx.assumptions += ["one namespace; output declarations are by type (as in the API); rate limiting of writes is not exercised"]
+    ratelimit(ctx, quick)
+    ctx.assumptions += ["one namespace; output declarations are by type (as in the API); rate limit 10/s burst 3 in the rate-limit stage (virtual time, 1 ms tolerance)"]
+
+
+def ratelimit(ctx, quick):
+    """Rate limiting of controller changes (WithChangeRateLimit): RateLimit.tla (token bucket, window bound) checked exhaustively;
+    TLC-generated call sequences with idle gaps are issued by a probe controller in virtual time, the bucket is replayed by
+    TraceRateLimit: every mutating call (allowed or denied) takes exactly one token and waits exactly as long as the policy says,
+    reads take none."""
+    vlib.mc(ctx, "RateLimit", "MC_RateLimit.cfg", timeout=1200)
+    n = 80 if quick else 1500
+    behs = vlib.gen_behaviours(ctx, "GenRateLimit", "GenRateLimit.cfg", num=n, depth=200, name="gen-ratelimit",
+                               env={"GEN_DEPTH": 25 if quick else 40})[:n]
+    ctx.cov["behaviours_replayed"] += len(behs)
+    ctx.cov["ratelimit_behaviours"] = len(behs)
+    inp = os.path.join(ctx.scratch, "rlbehs.json")
+    json.dump(behs, open(inp, "w"))
+    binary = vlib.go_build_test(ctx, "c08")
+    out = os.path.join(ctx.scratch, "ratelimit.ndjson")
+    vlib.go_run(ctx, binary, "TestRateLimit", {"VERIF_IN": inp, "VERIF_OUT": out}, timeout=2400)
+    recs = vlib.read_ndjson(out)
+    traces = vlib.split_traces(recs)
+    mism, consumed, vr = vlib.validate(ctx, "TraceRateLimit", "TraceRateLimit.cfg", out, timeout=1800, name="val-ratelimit")
+    if consumed != len(recs):
+        raise vlib.Infra("TraceRateLimit consumed %s of %d\n%s" % (consumed, len(recs), vr.out[-2500:]))
+    details = [x for x in vr.out.splitlines() if x.startswith('<<"DETAIL"')]
+    ctx.cov["traces_validated_against_impl"] += len(traces)
+    ctx.cov["ratelimit_calls_judged"] = len(recs) - len(traces)
+    ctx.cov["ratelimit_calls_that_waited"] = len([x for x in recs if x["ev"] == "call" and x["t1"] > x["t0"]])
+    ctx.sample({"ratelimit_line": next((x for x in recs if x["ev"] == "call" and x["t1"] > x["t0"]), recs[1])})
+    bad = set()
+    for i, line in enumerate(mism):
+        m = re.match(r'<<"MISMATCH", "([^"]*)", (\d+), "([^"]*)">>', line)
+        tid, lno, what = m.group(1), int(m.group(2)), m.group(3)
+        bad.add(tid)
+        ctx.violation("ratelimit/%s/%s" % (what, recs[lno - 1]["c"]), "%s: %s" % (what, (details[i] if i < len(details) else "")[:700]),
+                      {"tid": tid, "line": lno, "behaviour": behs[int(tid.split("#")[1])],
+                       "trace": [t for t in traces if t[0] == tid][0][1]})
+    import copy
+    for tid, t in traces:
+        idx = [i for i, x in enumerate(t) if x["ev"] == "call" and x["t1"] - x["t0"] > 20]
+        if tid in bad or not idx:
+            continue
+        t2 = copy.deepcopy(t)
+        t2[idx[0]]["t1"] = t2[idx[0]]["t0"]
+        p = os.path.join(ctx.scratch, "rlself.ndjson")
+        vlib.write_ndjson(p, t2[:idx[0] + 1])
+        m2, _, _ = vlib.validate(ctx, "TraceRateLimit", "TraceRateLimit.cfg", p, name="selftest-ratelimit")
+        ctx.cov["binding_selftest"].append({"corrupted": "a call that waited logged as immediate", "rejected": len(m2) > 0})
+        if not m2:
+            raise vlib.Infra("binding self-test: corrupted rate-limit trace accepted")
+        break
 
 
 def outtrack(ctx, quick):
